@@ -517,22 +517,45 @@ func init() {
 						}
 					}
 				}},
-				{Name: "malformed-specifiers", N: 1, Note: "wrong case, unknown namespace, three qualifiers, namespace/type mismatches", Run: func(i int, r *core.Rec) {
+				{Name: "malformed-specifiers", N: 1, Note: "wrong case, unknown namespace, three qualifiers, namespace/type mismatches x {is, as} x 15 syntactic positions", Run: func(i int, r *core.Rec) {
 					bad := []string{"patient", "PATIENT", "humanname", "HumanNAME", "STRING", "Strings", "integer64", "System.string", "System.Patient", "FHIR.String", "FHIR.Integer", "FHIR.Any", "Foo.Patient", "fhir.Patient", "system.String",
 						"FHIR.Patient.name", "System.String.x", "FHIR.FHIR.Patient", "NoSuchType", "FHIR.NoSuchType", "System.NoSuchType", "Patient_Contact", "Contact", "ValueX", "ReferenceId", "ContainedResource"}
+					// the type test alone and wherever else an expression may stand: rejected by Compile in every position
+					positions := []struct{ name, pre, post string }{
+						{"alone", "", ""}, {"parenthesised", "(", ")"}, {"left-of-and", "", " and true"}, {"right-of-and", "true and ", ""}, {"right-of-or", "false or ", ""}, {"right-of-xor", "true xor ", ""},
+						{"right-of-implies", "true implies ", ""}, {"right-of-=", "true = (", ")"}, {"right-of-&", "'x' & (", ").toString()"}, {"criterion", "Patient.name.where(", ")"}, {"argument", "iif(true, 1, ", ")"},
+						{"second-argument", "iif(true, ", ", 1)"}, {"indexer", "Patient.name[iif(", ", 0, 1)]"}, {"nested-right", "true and (false or ", ")"}, {"receiver", "(", ").not()"},
+					}
 					for _, spec := range bad {
 						for _, op := range []string{"is", "as"} {
-							src := "1 " + op + " " + spec
-							c := lib.Compile(src)
-							r.Eval()
-							r.State("malformed|" + op)
-							r.Nontrivial(src, c.Class())
-							r.Sample(core.W{"src": src, "outcome": c.Class()})
-							if c.Panic != nil {
-								r.Fail("compile|malformed|"+c.Panic.Key(), core.W{"src": src})
-							} else if c.CompileErr == nil {
-								r.Fail("compile|malformed-type-specifier-accepted|"+spec, core.W{"src": src})
+							for _, pos := range positions {
+								src := pos.pre + "1 " + op + " " + spec + pos.post
+								c := lib.Compile(src)
+								r.Eval()
+								r.State("malformed|" + op + "|" + pos.name)
+								r.Nontrivial(src, c.Class())
+								if pos.name == "alone" {
+									r.Sample(core.W{"src": src, "outcome": c.Class()})
+								}
+								if c.Panic != nil {
+									r.Fail("compile|malformed|"+pos.name+"|"+c.Panic.Key(), core.W{"src": src})
+								} else if c.CompileErr == nil {
+									k := "compile|malformed-type-specifier-accepted|" + spec
+									if pos.name != "alone" {
+										k += "|" + pos.name
+									}
+									r.Fail(k, core.W{"src": src, "position": pos.name})
+								}
 							}
+						}
+					}
+					// and the well-formed counterparts are accepted there
+					for _, pos := range positions {
+						src := pos.pre + "1 is Integer" + pos.post
+						c := lib.Compile(src)
+						r.Eval()
+						if c.Panic != nil || c.CompileErr != nil {
+							r.Fail("compile|well-formed-type-specifier-rejected|"+pos.name, core.W{"src": src, "outcome": c.Class()})
 						}
 					}
 				}},
